@@ -211,6 +211,18 @@ def main(argv):
         print('MACHINERY-FAILURE: %s' % e)
         return 2
     except Exception:
-        traceback.print_exc()
+        tb = traceback.format_exc()
+        # an exception that came out of the library where the harness expected a value: the property promised a result, so this is
+        # reported as a violation (with the traceback as the replay), not as a failure of the machinery
+        frames = re.findall(r'File "([^"]*/copulas/[^"]*)", line (\d+), in (\w+)', tb)
+        frames = [f for f in frames if '/verif/' not in f[0]]
+        if frames and 'ctx' in locals():
+            fn = '%s.%s' % (os.path.basename(frames[-1][0]).replace('.py', ''), frames[-1][2])
+            exc = tb.strip().splitlines()[-1].split(':')[0].split('.')[-1]
+            ctx.violation('%s|library-raised|%s|%s' % (a.pid, exc, fn),
+                          'the library raised %s in %s where the check expected a value; the check stopped there' % (exc, fn), {'traceback': tb[-3000:]})
+            ctx.rule = ctx.rule or 'stopped by an exception of the library'
+            return ctx.finish()
+        print(tb)
         print('MACHINERY-FAILURE: unexpected exception in harness')
         return 2
